@@ -364,6 +364,11 @@ impl BinaryMatrix for SparseBinaryMatrix {
             let mut src = self.dense_elements.len();
             self.dense_elements.extend(vec![0; self.height]);
             let mut dest = self.dense_elements.len();
+            if src == 0 {
+                // There were no dense columns yet (hint of zero, or dropped by resize): the
+                // appended zero words already are the first dense word of every row
+                dest = 0;
+            }
             // Re-space the elements, so that each row has an empty word
             while src > 0 {
                 src -= 1;
